@@ -239,6 +239,11 @@ theorem iteration_inv {cfg : Cfg} (hc : cfg.overwriteMigrated = false) {orig : O
     cases hf : firstBlock db h (fun k => !k.otx.isEmpty) with
     | none => exact ⟨hi, fun _ _ => rfl⟩
     | some t => exact ⟨applyPass_inv hc hw hi _ _, by intro b hb; simp only [Option.map_some]; exact applyPass_frame _ _ _ _ _ b hb⟩
+  | writeFail emit sel =>
+    simp only [getFirst_inv hw hi]
+    cases hf : firstBlock db h (fun k => !k.otx.isEmpty) with
+    | none => exact ⟨hi, fun _ _ => rfl⟩
+    | some t => exact ⟨applyPass_inv hc hw hi _ _, by intro b hb; simp only [Option.map_some]; exact applyPass_frame _ _ _ _ _ b hb⟩
   | crashFinal =>
     simp only [getFirst_inv hw hi]
     cases hf : firstBlock db h (fun k => !k.otx.isEmpty) with
@@ -305,6 +310,9 @@ theorem iteration_done {cfg : Cfg} (hc : cfg.overwriteMigrated = false) (hs : cf
       simp only [hf, Option.map_some, passFails_fixed hc hw hi, Bool.false_eq_true, if_false] at hd
       split at hd <;> simp at hd
   | crash emit sel =>
+    simp only [getFirst_inv hw hi] at hd
+    cases hf : firstBlock db h (fun k => !k.otx.isEmpty) <;> simp [hf] at hd
+  | writeFail emit sel =>
     simp only [getFirst_inv hw hi] at hd
     cases hf : firstBlock db h (fun k => !k.otx.isEmpty) <;> simp [hf] at hd
   | crashFinal =>
@@ -518,6 +526,7 @@ theorem iteration_pinv {cfg : Cfg} (hs : cfg.skipUnstoredEmpty = true) {orig : O
   cases st with
   | cancelHead => exact ⟨⟨p, hp⟩, by simp⟩
   | crash _ _ => cases hg
+  | writeFail _ _ => cases hg
   | crashFinal => cases hg
   | pass emit =>
     simp only [getFirst_inv hw hi]
@@ -668,6 +677,142 @@ theorem AllOld.pinv {orig : Orig} {h : Nat} {db : Db} (ha : AllOld orig h db) : 
 
 theorem AllOld.inv {orig : Orig} {h : Nat} {db : Db} (ha : AllOld orig h db) : Inv orig h db :=
   ha.pinv.inv
+
+
+/-- Every block with transactions is migrated; an empty block is migrated or has nothing stored. -/
+def NonEmptyMigrated (orig : Orig) (h : Nat) (db : Db) : Prop :=
+  db.height = some h ∧ ∀ b, b ≤ h →
+    (orig b ≠ ([], []) → Migrated (orig b) (db.blk b)) ∧
+    (orig b = ([], []) → Migrated (orig b) (db.blk b) ∨ Unmigrated (orig b) (db.blk b))
+
+theorem noOld_nonEmptyMigrated {orig : Orig} {h : Nat} {db : Db} (hw : WFOrig orig) (hi : Inv orig h db)
+    (hno : ∀ b, b ≤ h → (!(db.blk b).otx.isEmpty) = false) : NonEmptyMigrated orig h db := by
+  refine ⟨hi.1, ?_⟩
+  intro b hb
+  rcases hi.2 b hb with hu | hm
+  · have he := unmigrated_noOld_empty (hw b) hu (hno b hb)
+    exact ⟨fun hne => absurd he hne, fun _ => .inr hu⟩
+  · exact ⟨fun _ => hm, fun _ => .inl hm⟩
+
+theorem AllMigrated.nonEmpty {orig : Orig} {h : Nat} {db : Db} (ha : AllMigrated orig h db) :
+    NonEmptyMigrated orig h db :=
+  ⟨ha.1, fun b hb => ⟨fun _ => ha.2 b hb, fun _ => .inl (ha.2 b hb)⟩⟩
+
+theorem iteration_done_any {cfg : Cfg} (hc : cfg.overwriteMigrated = false)
+    {orig : Orig} {h : Nat} {db : Db} (hw : WFOrig orig) (hi : Inv orig h db) (st : Step)
+    (hd : (iteration cfg db h st).2 = some .done) : NonEmptyMigrated orig h (iteration cfg db h st).1 := by
+  cases hs : cfg.skipUnstoredEmpty with
+  | false => exact (iteration_done hc hs hw hi st hd).nonEmpty
+  | true =>
+    unfold iteration at hd ⊢
+    cases st with
+    | cancelHead => simp at hd
+    | pass emit =>
+      simp only [getFirst_inv hw hi] at hd ⊢
+      cases hf : firstBlock db h (fun k => !k.otx.isEmpty) with
+      | none =>
+        simp only [Option.map_none, hs, if_true]
+        exact noOld_nonEmptyMigrated hw hi (fun b hb => firstBlock_none hf b hb)
+      | some t =>
+        simp only [hf, Option.map_some, passFails_fixed hc hw hi, Bool.false_eq_true, if_false] at hd
+        split at hd <;> simp at hd
+    | crash emit sel =>
+      simp only [getFirst_inv hw hi] at hd
+      cases hf : firstBlock db h (fun k => !k.otx.isEmpty) <;> simp [hf] at hd
+    | writeFail emit sel =>
+      simp only [getFirst_inv hw hi] at hd
+      cases hf : firstBlock db h (fun k => !k.otx.isEmpty) <;> simp [hf] at hd
+    | crashFinal =>
+      simp only [getFirst_inv hw hi] at hd
+      cases hf : firstBlock db h (fun k => !k.otx.isEmpty) <;> simp [hf] at hd
+
+theorem migrateLoop_done_any {cfg : Cfg} (hc : cfg.overwriteMigrated = false)
+    {orig : Orig} {h : Nat} (hw : WFOrig orig) : ∀ (fuel : Nat) (db : Db) (steps : List Step), Inv orig h db →
+    (migrateLoop cfg h fuel db steps).2 = .done → NonEmptyMigrated orig h (migrateLoop cfg h fuel db steps).1 := by
+  intro fuel
+  induction fuel with
+  | zero => intro db steps hi hd; simp [migrateLoop] at hd
+  | succ n ih =>
+    intro db steps hi
+    simp only [migrateLoop]
+    have key : ∀ st rest, (match iteration cfg db h st with
+        | (db', some r) => (db', r)
+        | (db', none) => migrateLoop cfg h n db' rest).2 = .done →
+        NonEmptyMigrated orig h (match iteration cfg db h st with
+        | (db', some r) => (db', r)
+        | (db', none) => migrateLoop cfg h n db' rest).1 := by
+      intro st rest
+      have h1 := iteration_inv hc hw hi st
+      have h2 := iteration_done_any hc hw hi st
+      split
+      · rename_i db' r heq
+        rw [heq] at h2
+        intro hd
+        simp only at hd
+        subst hd
+        exact h2 rfl
+      · rename_i db' heq
+        rw [heq] at h1
+        exact ih db' rest h1.1
+    cases steps with
+    | nil => exact key _ _
+    | cons s r => exact key _ _
+
+theorem migrate_done_any {cfg : Cfg} (hc : cfg.overwriteMigrated = false)
+    {orig : Orig} {h : Nat} {db : Db} (hw : WFOrig orig) (hi : Inv orig h db) (steps : List Step)
+    (hd : (migrate cfg db steps).2 = .done) : NonEmptyMigrated orig h (migrate cfg db steps).1 := by
+  unfold migrate at hd ⊢
+  rw [hi.1] at hd ⊢
+  exact migrateLoop_done_any hc hw 3 db steps hi hd
+
+/-- Left alone, `Migrate` returns `(nil, nil)` from every image satisfying `Inv` (either variant of
+the final step). -/
+theorem migrate_uninterrupted_any {cfg : Cfg} (hc : cfg.overwriteMigrated = false)
+    {orig : Orig} {h : Nat} {db : Db} (hw : WFOrig orig) (hi : Inv orig h db) :
+    (migrate cfg db []).2 = .done := by
+  cases hs : cfg.skipUnstoredEmpty with
+  | false => exact migrate_uninterrupted hc hs hw hi
+  | true =>
+    have hfinal : ∀ db1 : Db, Inv orig h db1 → firstBlock db1 h (fun k => !k.otx.isEmpty) = none →
+        (iteration cfg db1 h (.pass none)).2 = some .done := by
+      intro db1 hi1 hf1
+      unfold iteration
+      simp only [getFirst_inv hw hi1, hf1, Option.map_none, hs, if_true]
+    unfold migrate
+    rw [hi.1]
+    simp only [migrateLoop]
+    cases hf : firstBlock db h (fun k => !k.otx.isEmpty) with
+    | none =>
+      have := hfinal db hi hf
+      split
+      · rename_i db' r heq
+        rw [heq] at this
+        simp only at this ⊢
+        injection this
+      · rename_i db' heq
+        rw [heq] at this
+        cases this
+    | some t =>
+      have hit : iteration cfg db h (.pass none) =
+          (applyPass cfg db (t - t % batchSize) h (fun i => decide (i < numRanges (t - t % batchSize) h)), none) := by
+        unfold iteration
+        simp only [getFirst_inv hw hi, hf, Option.map_some, passFails_fixed hc hw hi, Bool.false_eq_true, if_false,
+          Option.getD_none, Nat.min_self, Nat.lt_irrefl]
+      rw [hit]
+      simp only []
+      have hi1 := applyPass_inv (cfg := cfg) hc hw hi (t - t % batchSize) (fun i => decide (i < numRanges (t - t % batchSize) h))
+      have hf1 : firstBlock (applyPass cfg db (t - t % batchSize) h (fun i => decide (i < numRanges (t - t % batchSize) h))) h
+          (fun k => !k.otx.isEmpty) = none :=
+        firstBlock_eq_none (p := fun k => !k.otx.isEmpty) (fullPass_noOld hc hw hi hf)
+      have := hfinal _ hi1 hf1
+      split
+      · rename_i db' r heq
+        rw [heq] at this
+        simp only at this ⊢
+        injection this
+      · rename_i db' heq
+        rw [heq] at this
+        cases this
 
 
 end Juno.C18.BlockTx
